@@ -231,10 +231,13 @@ def concretise(chk, sc, cfgseed, ndims, style=None):
             dim = b % ndims
             ln = start + b * ndims + dim
             lo, hi = [float(v) for v in lines[ln].split()]
+            # by how much the bound contradicts the index range: several cells, one cell, or a fraction of a cell (well above
+            # any rounding of the header's decimal numbers)
+            mag = [1.0, 0.4, 3.0, 0.25, 0.05][(b + cfgseed) % 5] * dx[dim]
             if (b // ndims) % 2 == 0:
-                hi += dx[dim]
+                hi += mag
             else:
-                lo -= dx[dim]
+                lo -= mag
             lines[ln] = "%r %r" % (lo, hi)
         open(hp, "w").write("\n".join(lines))
     return d, ap, reg
